@@ -223,3 +223,7 @@ def run(chk, ctx) -> None:
             chk.ob('C05.counts', f'{cname}:search', owner == role, prog.cls(cname).loc,
                    'the class uses the search of its composition rule', got=owner, want=role)
     chk.floor('C05.counts', 11)
+    # observed at State.get_hand / get_up_hand: the evaluator is handed the right cards
+    from .cover import hand_observers
+    hand_observers(chk, ctx, 'C05.observed')
+    chk.floor('C05.observed', 2)
